@@ -49,6 +49,13 @@ func (s *Script) finish(rng *fw.Rand) {
 		if f.Masked {
 			v := rng.U64()
 			f.Key = [4]byte{byte(v), byte(v >> 8), byte(v >> 16), byte(v >> 24)}
+			if v>>32%12 == 0 {
+				// keys with zero bytes, including the all-zero key (legal: the frame is still a masked frame)
+				f.Key = [][4]byte{{0, 0, 0, 0}, {0, 0, 0, 1}, {0xff, 0, 0, 0}, {0, 0xff, 0, 0}, {0, 0, 0, 0}}[v>>40%5]
+				if f.Key == [4]byte{} {
+					s.feature("zero-mask-key")
+				}
+			}
 		}
 		s.Off = append(s.Off, len(s.Stream))
 		s.Stream = f.Append(s.Stream)
@@ -81,6 +88,7 @@ func genScript(rng *fw.Rand, role Role, p wire.Params, o scriptOpts) *Script {
 	peerIsClient := role == RoleServer
 	def := &wire.Deflater{Takeover: p.SenderTakeover(peerIsClient)}
 	var hist [][]byte
+	var farRef []byte
 	nm := o.MinMsgs + rng.Intn(o.MaxMsgs-o.MinMsgs+1)
 	s.NMsgs = nm
 
@@ -146,6 +154,32 @@ func genScript(rng *fw.Rand, role Role, p wire.Params, o scriptOpts) *Script {
 		}
 		kind := rng.Intn(5)
 		payload := genPayload(rng, size, kind, hist)
+		if m == 0 && o.Big && p.Deflate && !o.NoCompress && p.SenderTakeover(peerIsClient) && nm >= 3 && rng.Intn(6) == 0 {
+			// a history that only just fits the 32 KiB window: incompressible bulk, a little filler, then a
+			// message that repeats the very beginning of the bulk (match distance close to 32768); all
+			// three compressed at the highest level
+			farRef = rng.Bytes(30000 + rng.Intn(2000))
+			if rng.Bool() {
+				farRef = rng.Bytes(40000 + rng.Intn(30000)) // longer than the window: its tail is the history
+			}
+		}
+		if farRef != nil && m < 3 {
+			switch m {
+			case 0:
+				payload = farRef
+			case 1:
+				payload = rng.Bytes(100 + rng.Intn(400))
+			case 2:
+				// bytes that lie about 31.8 KiB before the end of the bulk: still inside the 32 KiB window
+				start := len(farRef) - 31800
+				if start < 0 {
+					start = 0
+				}
+				payload = append([]byte(nil), farRef[start:start+400+rng.Intn(300)]...)
+				s.feature("far-back-reference")
+			}
+			size = len(payload)
+		}
 		hist = append(hist, payload)
 		text := rng.Bool()
 		op := byte(wire.OpBinary)
@@ -153,10 +187,16 @@ func genScript(rng *fw.Rand, role Role, p wire.Params, o scriptOpts) *Script {
 			op = wire.OpText
 		}
 		compressed := p.Deflate && !o.NoCompress && rng.Intn(100) < 65
+		if farRef != nil && m < 3 {
+			compressed = true
+		}
 		wirePayload := payload
 		note := fmt.Sprintf("msg%d size=%d %s", m, size, payloadKinds[kind])
 		if compressed {
 			level := []int{1, 6, 9, 0, -2}[rng.Intn(5)]
+			if farRef != nil && m < 3 {
+				level = 9
+			}
 			end := wire.EndSync
 			if rng.Intn(4) == 0 {
 				end = wire.EndBFinal
